@@ -1259,7 +1259,7 @@ impl SparqlDatabase {
             term.to_string()
         } else if term.starts_with('<') && term.ends_with('>') {
             term[1..term.len() - 1].to_string()
-        } else if term.starts_with('"') && term.ends_with('"') {
+        } else if term.len() >= 2 && term.starts_with('"') && term.ends_with('"') {
             term[1..term.len() - 1].to_string()
         } else {
             term.trim_matches('"').to_string()
